@@ -244,7 +244,77 @@ def _ew_shard(args):
     return n, bad
 
 
+def _ewreg_cases():
+    """(sub-op, data type, s1, s2, so): equal, one float32 ulp apart, almost equal, clearly different input scales"""
+    out = []
+    for dt, s1 in (("i8", 0.0235), ("u8", 0.0235), ("i16", 3.0518e-05), ("i16", 0.00015), ("i8", 0.5)):
+        b = np.float32(s1)
+        near = [float(b), float(np.nextafter(b, np.float32(1))), float(np.nextafter(b, np.float32(0))), float(b * np.float32(1 + 1e-6)), float(b * np.float32(1 + 5e-6)),
+                float(b * np.float32(1 - 8e-6)), float(b * np.float32(1 + 1e-4)), float(b * np.float32(1.5)), float(b * np.float32(0.5)), float(b * np.float32(2.0))]
+        for s2 in near:
+            for so in (float(b), float(b * np.float32(2.0)), float(b * np.float32(1.37))):
+                for sub in ("ADD", "SUB"):
+                    out.append((sub, dt, float(b), s2, so))
+    return out
+
+
+def _ewreg_shard(cases):
+    """ADD/SUB through the real generator; the effective weight of each operand (from OPA/OPB/OFM scale registers and the operand-to-scale
+    field) must equal s1/so and s2/so to reference precision"""
+    core.bind_repo(need_codec=False)
+    from ethosu.vela import api
+
+    from ..npu import decode as D
+    from ..npu import oplists
+
+    bad = []
+    n = 0
+    for (sub, dt, s1, s2, so) in cases:
+        for acc in ("ethos-u55-128",):
+            ae = oplists.acc_enum(api, acc)
+            spec = oplists.ew_spec(sub, 0x0000, 0x4000, 0x8000, hw=(8, 8), c=16, dt=dt)
+            spec["ifm"]["scale"], spec["ifm2"]["scale"], spec["ofm"]["scale"] = s1, s2, so
+            if dt == "u8":
+                for k in ("ifm", "ifm2", "ofm"):
+                    spec[k]["zp"] = 128
+            try:
+                op = oplists.build_op(api, spec, ae)
+                words = api.npu_generate_register_command_stream([op], ae)
+            except Exception as e:  # noqa
+                bad.append(((sub, dt, s1, s2, so), "generator raised %s: %s" % (type(e).__name__, str(e)[:80])))
+                continue
+            hw, pr = D.decode(words)
+            if pr or len(hw) != 1:
+                continue
+            r = hw[0]
+            n += 1
+            opa, opa_sh = r.r("OPA_SCALE", (0, 0))
+            opb, _ = r.r("OPB_SCALE", (0, 0))
+            ofm, ofm_sh = r.r("OFM_SCALE", (0, 0))
+            mode = (r.r("IFM_PRECISION") >> 8) & 3
+            bits = 16 if dt == "i16" else 8
+            unscaled = Fr(1 << ((20 if bits == 8 else 15) - 1))
+            o = Fr(ofm, 1 << ofm_sh)
+            if mode == 0:
+                A, B = Fr(opa) * o, Fr(opb) * o
+            elif mode == 1:
+                A, B = Fr(opa, 1 << opa_sh) * o, unscaled * o
+            else:
+                A, B = unscaled * o, Fr(opa, 1 << opa_sh) * o
+            f1, f2, fo = (Fr(float(np.float32(v))) for v in (s1, s2, so))
+            for name, got, exp in (("first", A, f1 / fo), ("second", B, f2 / fo)):
+                rel = abs(got - exp) / exp
+                if rel > Fr(1, 1 << 24):
+                    bad.append(((sub, dt, s1, s2, so), "%s operand is weighted %.10g, the scales give %.10g (relative error 2^%.1f; OPA=%d>>%d OPB=%d OFM=%d>>%d operand-to-scale=%d)" % (
+                        name, float(got), float(exp), math.log2(float(rel)), opa, opa_sh, opb, ofm, ofm_sh, mode)))
+                    break
+    return n, bad
+
+
 def replay(ctx, case):
+    if case.get("kind") == "ewreg":
+        n, bad = _ewreg_shard([tuple(case["case"])])
+        return [b[1] for b in bad]
     if case.get("kind") == "scale_record":
         from . import c08
 
@@ -303,6 +373,13 @@ def run(ctx):
                 seen_keys.add(key)
                 ctx.violation(key, "%s(%r) returned %s, expected %s" % (fn, float(f32((E << 23) | mant)), got, exp), dict(kind="f32", fn=fn, E=E, mant=mant, as_float=as_float))
     ctx.count("f32_calls", total)
+    # ADD/SUB scaling as programmed: equal / almost equal / different input scales through the real generator
+    ec = _ewreg_cases()
+    for n, bad in pmap(_ewreg_shard, [ec[i:i + 20] for i in range(0, len(ec), 20)]):
+        ctx.count("elementwise_register_cases", n)
+        for case, what in bad:
+            sub, dt, s1, s2, so = case
+            ctx.violation("ewreg|%s|%s|ratio=%.3g" % (sub, dt, s2 / s1 - 1), "%s %s with input scales %r, %r and output scale %r: %s" % (sub, dt, s1, s2, so, what), dict(kind="ewreg", case=list(case)))
     # per-channel scale records as stored for the hardware (weight_compressor._prepare_scale_and_bias picks the derivation by operator
     # kind and data type): every (kind, data type, per-channel, converted-convolution) class through the real tensor assembly
     from . import c08
